@@ -128,6 +128,7 @@ func runC14(prop string, res *Result, pool *DrvPool, r *Rng) {
 	}
 	runRaceProgram(res)
 	// model correspondence of the aggregation itself is C04's; here: aggregate twice = same
+	aggCasesDiv = 4
 	runAgg("C14", res, pool, r.Fork())
 }
 
